@@ -126,8 +126,9 @@ def _generate_index_expressions(
 
     if old_shape == new_shape:
         # Avoid generating modulo expressions for direct pass-through
-        assert len(old_shape) == 1
-        return (index_vars[0],)
+        # (more than one axis only for zero-size arrays, which are not split
+        # into groups of axes)
+        return tuple(index_vars)
 
     old_size_tills = [old_shape[-1] if order == "C" else old_shape[0]]
 
